@@ -16,10 +16,14 @@ def uenv_ops(strings):
         for i in range(n):
             for j in range(i + 1, n + 1):
                 subs.add(s[i:j])
-    try:
-        from lib_trainer.detection_rules.case_util import lower_keep_length
-    except ImportError:      # a tree without the helper lower-cases with str.lower()
-        lower_keep_length = str.lower
+    # what the detectors' working copy of a string is (the model is given the specification, written out here, not the helper of the
+    # tree under test): `str.lower()` of the whole string unless that changes its length; then letter by letter, a letter whose
+    # lower-casing is longer than one character staying as it is
+    def lower_keep_length(t_):
+        lo_ = t_.lower()
+        if len(lo_) == len(t_):
+            return lo_
+        return ''.join(ch.lower() if len(ch.lower()) == 1 else ch for ch in t_)
     lops = []
     for t in sorted(subs):
         lo = t.lower()
